@@ -87,7 +87,7 @@ func H_l3_nowrite() {
 }
 
 func (c *vT) nowrite() {
-	q := vString("q", vParam("lq"))
+	q := c.query(vParam("lq")) // optionally an indexed key + symbolic bytes + a long concrete tail
 	api := vParam("api")
 	st := c.st
 	vMonitor(st)
@@ -148,6 +148,27 @@ func (c *vT) nowrite() {
 		}
 	}
 	vAssert(vWrites() == 0, "C11.no-shared-write")
+}
+
+// part 4 of l2_alias: values shorter than the encoder's nominal size, carved out of one
+// caller-owned buffer (so each has spare capacity behind it): the build must not write there.
+func (c *vT) aliasShortValues() {
+	shared := vBytes("sh", 4*c.n+4)
+	before := append([]byte{}, shared...)
+	vals := make([][]byte, c.n)
+	for i := range vals {
+		vals[i] = shared[4*i : 4*i+1+i%2] // lengths 1, 2, 1, ... ; capacity reaches to the end of the buffer
+	}
+	vMonitor(shared)
+	_, err := NewSlimTrie(encode.Bytes{Size: 2}, c.keys, vals, vOptCase(c.optc))
+	wr := vWrites()
+	vUnmonitor(shared)
+	_ = err // out-of-domain values may be refused; whatever the outcome, the caller's memory is untouched
+	vAssert(vBytesEq(shared, before), "C20.value-memory-unchanged")
+	vAssert(wr == 0, "C20.value-memory-not-written")
+	for i := range vals {
+		vAssert(len(vals[i]) == 1+i%2, "C20.values-unchanged")
+	}
 }
 
 func (c *vT) readAPI(st *SlimTrie, api int, q string) {
@@ -239,6 +260,8 @@ func H_l2_alias() {
 		v1, f1 := st.Get(q)
 		r1, g1 := st.RangeGet(q)
 		vAssert(f0 == f1 && c.sameIface(v0, v1) && g0 == g1 && c.sameIface(r0, r1), "C20.buf-overwrite-harmless")
+	case 4:
+		c.aliasShortValues()
 	case 3: // caller-owned value memory ([]byte values through encode.Bytes) is not retained
 		vals := make([][]byte, c.n)
 		for i := range vals {
